@@ -16,6 +16,7 @@ LOCAL ZZ == INSTANCE BigInt
 LOCAL DBX == INSTANCE Dbl
 LOCAL LT == INSTANCE CelLiteral
 LOCAL NM64 == INSTANCE Num64
+LOCAL RXX == INSTANCE CelRegex
 
 Rec == ndJsonDeserialize(IOEnv.TRACE)
 
@@ -31,6 +32,10 @@ Expected(r) ==
     [] r.op \in {"min", "max"} -> BF!MinMax(<< r.a, r.b >>, r.op = "max")
     [] r.op \in {"minl", "maxl"} -> BF!MinMax(<< r.a >>, r.op = "maxl")
     [] r.op = "contains" -> BF!ContainsFn(r.a, r.b)
+    [] r.op = "matches" -> BF!MatchesFn(r.a, r.b)
+    [] r.op = "rxtable" ->        \* a = list of texts, b = one pattern: the list of answers, or (invalid pattern) an error for all of them
+         (LET p == RXX!Parse(r.b.cp) IN
+          IF p.ok THEN R(VList([i \in 1..Len(r.a.e) |-> VBool(RXX!IsMatch(p.node, r.a.e[i].cp))])) ELSE D(R(VList(<< >>))))
     [] r.op = "size" -> BF!Size(r.a)
     [] r.op = "has" -> HasOp(r.a, r.b.cp)
     [] r.op = "sel" -> SelectOp(r.a, r.b.cp, FALSE)
